@@ -16,7 +16,7 @@ func (f Float) WriteTerm(w io.Writer, opts *WriteOptions, _ *Env) error {
 	ew := errWriter{w: w}
 	openClose := opts.left.name == atomMinus && opts.left.specifier.class() == operatorClassPrefix && f >= 0
 
-	if openClose || (f < 0 && opts.left != operator{}) {
+	if openClose || (opts.left != operator{} && (f < 0 || letterDigit(opts.left.name))) {
 		_, _ = ew.Write([]byte(" "))
 	}
 
